@@ -572,7 +572,15 @@ func (s *Store) run(ctx context.Context, interval time.Duration, done chan<- str
 	defer close(done)
 
 	// Jitter polls by ±10% of the total interval to avert a thundering herd.
-	jitter := time.Duration(rand.Intn(2*int(interval)/10) - (int(interval) / 10))
+	// An interval too short to have a tenth is not jittered, and the jittered
+	// interval must not overflow for a very long ("never") interval.
+	var jitter time.Duration
+	if tenth := interval / 10; tenth > 0 {
+		jitter = time.Duration(rand.Int63n(2*int64(tenth))) - tenth
+		if jitter > 0 && interval+jitter < interval {
+			jitter = 0
+		}
+	}
 
 	t := s.newTicker(interval + jitter)
 	defer t.Stop()
